@@ -514,6 +514,13 @@ func runC06(p *Program, r *Report) {
 	c06closereadYield(p, r, "C06.closeread")
 	c03fail(p, r, "C06.fail")
 	c06held(p, r, "C06.held")
+	// "once the connection is closed every further Read, Write … fails": a reader or writer handle of an unfinished
+	// message does not turn into a clean end (seeds C06-Q, C06-R)
+	if fn := p.Func("msgReader.Read"); fn != nil {
+		c04stale(p, r, "C06.stale", fn)
+	}
+	cReaderHandle(p, r, "C06.rhandle")
+	cWriterHandle(p, r, "C06.handle")
 	// the payload of a close frame is read in full before it is parsed and echoed (seed C06-O)
 	c03full(p, r, "C06.full")
 	// "a Close frame with exactly that code and reason": the header codec's length table at 125 (seed C06-M)
